@@ -1,4 +1,5 @@
 import NomtModel.Store.OvfMain
+import NomtModel.Store.OvfLive
 import NomtModel.Store.LeafRt
 /-!
 # C01 (topic: values that do not fit a leaf — `beatree/ops/overflow.rs`, `ValueChange::insert`)
@@ -109,6 +110,60 @@ theorem T1_overflow_reader_total (value : Bytes) (hne : value ≠ []) (hmax : va
   refine ⟨evs, s', hrun, fun e he => ?_⟩
   have := hev e he
   cases e <;> simp_all [EvOK, EvGood]
+
+/-- T1.ovf-3b **the repaired reader never stalls its caller**: the repair of F12 lets `submit` answer `None` while the
+next page number is not known yet; a caller that submits until `None` and then waits for a completion (the rollback
+worker) would hang if nothing were outstanding at that moment.  After ANY schedule on the pages `chunk` wrote, either
+the value has been delivered, or a request is outstanding, or `submit` hands out a new request (in particular the very
+first `submit`, which `ReadTransaction::lookup_async` unwraps, succeeds). -/
+theorem T1_overflow_async_no_stall (value : Bytes) (hne : value ≠ []) (hmax : value.length ≤ MAX_VALUE_SIZE)
+    (hash : Bytes) (hh : hash.length = 32) (alloc : Nat → Nat) (junk : Nat → Bytes)
+    (h32 : ∀ i, i < totalNeededPages value.length → alloc i < 2 ^ 32)
+    (hj : ∀ i, (junk i).length = PAGE_SIZE) :
+    ∃ out cell r₀, chunk value alloc junk = some out ∧ encodeCell value.length hash out.cell = some cell ∧
+      AR.new cell = some r₀ ∧
+      ∀ σ : Store, (∀ w ∈ out.writes, σ w.1 = some w.2) → ∀ acts : List Act,
+        ∃ evs s', Run.run true σ ⟨r₀, []⟩ acts = some (evs, s') ∧
+          ((∃ i, Ev.value i value ∈ evs) ∨ s'.out ≠ [] ∨
+            ∃ i pn r', s'.ar.submit true = some (some (i, pn), r')) := by
+  obtain ⟨out, cell, hchunk, henc, hdec, _, _, _, _, hchain⟩ :=
+    chunk_cell_chain value hne hmax hash hh alloc junk h32 hj
+  have hr₀ : AR.new cell = some ⟨[], out.cell.map (fun pn => (pn, none)), 0, 0, value.length,
+      totalNeededPages value.length⟩ := by simp only [AR.new, hdec]
+  refine ⟨out, cell, _, hchunk, henc, hr₀, fun σ hσ acts => ?_⟩
+  obtain ⟨parts, hc, hfb, _, hlen⟩ := hchain σ hσ
+  obtain ⟨r, hr, hinv⟩ := new_inv (σ := σ) (parts := parts) cell hash value.length hdec hlen (by rw [hfb])
+  rw [hr₀] at hr; cases hr
+  have hpos := totalNeededPages_pos value.length (List.length_pos_iff.2 hne)
+  have hlive : Live ⟨⟨[], out.cell.map (fun pn => (pn, none)), 0, 0, value.length,
+      totalNeededPages value.length⟩, []⟩ := by
+    refine ⟨Nat.zero_le _, ?_, fun i pn _ hi _ => absurd hi (Nat.not_lt_zero _), hpos⟩
+    intro pn x hs
+    simp only [List.getElem?_map] at hs
+    cases hq : out.cell[0]? with
+    | none => rw [hq] at hs; simp at hs
+    | some q => rw [hq] at hs; simp at hs; exact hs.2.symm
+  obtain ⟨evs, s', hrun, hinv', hev⟩ := run_inv hc acts _ hinv
+  refine ⟨evs, s', hrun, ?_⟩
+  rcases run_live hc acts _ evs s' hinv hlive hrun with ⟨i, v, hm⟩ | hl'
+  · left
+    have := hev _ hm
+    simp only [EvOK] at this
+    exact ⟨i, by rw [← hfb, ← this]; exact hm⟩
+  · right
+    rcases hinv' with ⟨hari, _, _⟩ | ⟨hempty, hreq⟩
+    · exact no_stall hc hari hl'
+    · -- the reader cannot be finished while the caller still waits
+      exfalso
+      have hlt := hl'.proc_lt
+      have hpr : s'.ar.proc < s'.ar.req := by omega
+      have hpl : s'.ar.proc < s'.ar.pages.length := Nat.lt_of_lt_of_le hpr hl'.req_pages
+      obtain ⟨⟨pn, x⟩, hs⟩ : ∃ e, s'.ar.pages[s'.ar.proc]? = some e := ⟨_, List.getElem?_eq_getElem hpl⟩
+      have hx := hl'.waiting pn x hs
+      subst hx
+      have := hl'.outst _ pn (Nat.le_refl _) hpr hs
+      rw [hempty] at this
+      simp at this
 
 /-- T1.ovf-4 **F12, kernel-checked**: before the repair, sixteen `submit`s without a completion in between (the
 rollback worker's pattern for a cold leaf) on the cell of a 65 468-byte value index `pages[15]` of a 15-element vector:
@@ -229,6 +284,18 @@ example :
     let value : Bytes := [1, 2, 3, 4, 5]
     let junk : Nat → Bytes := fun _ => List.replicate 4096 0xAA
     (chunk value (fun i => 9 + i) junk).map (fun o => (o.cell, o.total, o.writes.map (·.1))) = some ([9], 1, [9]) := by
+  decide
+
+set_option maxRecDepth 100000 in
+/-- evaluated by the kernel: the `AsyncReader` on that value — the second `submit` answers `None` (one page), the
+completion of the first request delivers the value -/
+example :
+    let junk : Nat → Bytes := fun _ => List.replicate 4096 0xAA
+    let hash : Bytes := List.replicate 32 1
+    ((chunk [1, 2, 3, 4, 5] (fun i => 9 + i) junk).bind (fun o =>
+      (encodeCell 5 hash o.cell).bind (fun cell => (AR.new cell).bind (fun r =>
+        (Run.run true (applyWrites (fun _ => none) o.writes) ⟨r, []⟩ [.submit, .submit, .complete 0]).map (·.1))))) =
+      some [.submitted 0 9, .nothing, .value 0 [1, 2, 3, 4, 5]] := by
   decide
 
 end Nomt.C01
